@@ -93,8 +93,39 @@ def strip_comments(text):
     return "".join(out)
 
 
+def unterminated_description(text):
+    """a `@Description {` block still opened at the end of the input (plain brace counting, as c54::unterminatedDescription)"""
+    n = len(text)
+    p = text.find("@Description")
+    while p >= 0:
+        q = p + 12
+        while q < n and text[q].isspace():
+            q += 1
+        if q < n and text[q] == '{':
+            depth = 0
+            i = q
+            while i < n:
+                j = ml._skip_opaque(text, i)
+                if j != i:
+                    i = j
+                    continue
+                if text[i] == '{':
+                    depth += 1
+                elif text[i] == '}':
+                    depth -= 1
+                    if depth == 0:
+                        break
+                i += 1
+            if depth > 0:
+                return True
+        p = text.find("@Description", p + 1)
+    return False
+
+
 def known_class(text):
     """key of the recorded finding the input belongs to (None otherwise)"""
+    if unterminated_description(text):
+        return "C54.read_past_end.handleDescription_unterminated"
     t = strip_comments(text).rstrip()
     if _TRAILING_KEYWORD.search(t):
         return "C54.heap-buffer-overflow.treatKeyword_at_end_of_file"
@@ -105,6 +136,8 @@ def canonical_key(key):
     """sanitizer derived key -> key of the recorded finding with the same root cause"""
     if key.startswith("heap-buffer-overflow.") and key.endswith("::treatKeyword"):
         return "heap-buffer-overflow.treatKeyword_at_end_of_file"
+    if key.endswith("SchemeParserBase::handleDescription") and key.split(".")[0] in ("SEGV", "heap-buffer-overflow"):
+        return "read_past_end.handleDescription_unterminated"
     return key
 
 
@@ -342,8 +375,13 @@ def parse_only_terminates(text):
         shutil.rmtree(d, ignore_errors=True)
 
 
+_NEGATIVE_COUNT = re.compile(r"\bin\s+-")  # read as an unsigned int: `in -1` means 4294967295 intervals
+
+
 def judge_timeout(text):
     """(is violation, class)"""
+    if ml.has_large_number(text) or _NEGATIVE_COUNT.search(text):
+        return False, "timeout_large_number_in_input"  # work proportional to a number of the input is not a hang
     po = parse_only_terminates(text)
     if po:
         return False, "timeout_long_computation"
@@ -585,7 +623,7 @@ def main():
                 confirm_artifact(u, art)
         s = u._sub("fuzz")
         s["excluded_known"] += sum(v for k, v in s["classes"].items() if k.startswith("excluded_known."))
-        s["discarded"] += s["classes"].get("excluded_domain.path", 0)
+        s["discarded"] += s["classes"].get("excluded_domain.path", 0) + s["classes"].get("excluded_domain.huge_subdivision", 0)
         u.extra["fuzz_executions"] = execs
         u.extra["fuzz_wall_s"] = round(tf - t0 - u.extra["build_s"], 1)
         u.extra["confirm_s"] = round(time.time() - tf, 1)
